@@ -646,10 +646,14 @@ class Trellis:
             self.application_id, self.schema_version, schema_scripts
         )
         async with self.db:
-            if is_fresh:
+            # The schema is written in autocommit mode, before this transaction.
+            # A process that was killed in between leaves a database with tables but no root,
+            # which is just as empty as a fresh one.
+            if not is_fresh:
+                self._root = self.find(Root, "")
+            if is_fresh or self._root is None:
                 self._root = self.create(Root, None)
             else:
-                self._root = self.find(Root, "")
                 self._rebuild_temp_tables()
                 self._check_consistency()
 
